@@ -13,6 +13,7 @@ import (
 	"strconv"
 	"strings"
 	"sync"
+	"syscall"
 	"time"
 
 	"github.com/Dash-Industry-Forum/livesim2/cmd/livesim2/app"
@@ -290,6 +291,77 @@ func Main(args []string) error {
 			}
 			w.Emit(tr.E{"ev": "end", "http": true})
 			distinct["http"+strconv.Itoa(s)] = true
+		}
+	}
+
+	// (V) fault injection: a slow request-limit log (a FIFO nobody reads yet) parks the request that rolls the
+	// interval over inside its log write; further requests arrive meanwhile. The roll-over must stay atomic.
+	if *mode == "slowlog" || *mode == "all" {
+		for s := 0; s < 6; s++ {
+			fifo := fmt.Sprintf("%s.fifo%d", *out, s)
+			_ = os.Remove(fifo)
+			if err := syscall.Mkfifo(fifo, 0o600); err != nil {
+				return fmt.Errorf("mkfifo: %w", err)
+			}
+			maxReq := 1 + s%3
+			intervalMS := 1000
+			rec.start = time.Unix(1_700_000_000, 0)
+			il, err := app.NewIPRequestLimiter(maxReq, time.Duration(intervalMS)*time.Millisecond, rec.start, whiteBlocks, fifo)
+			if err != nil {
+				return err
+			}
+			w.Emit(tr.E{"ev": "hdr", "sc": nScen, "max": maxReq, "interval": intervalMS, "slowlog": true})
+			nScen++
+			addrs := []addr{mkAddr(0), mkAddr(1), mkAddr(5)}
+			for _, a := range addrs {
+				rec.wl[a.ip] = a.wl
+			}
+			// some requests inside the first interval (no log write happens)
+			for i := 0; i < maxReq+1; i++ {
+				il.Inc(rec.start.Add(time.Duration(10*i)*time.Millisecond), addrs[i%2].ip)
+			}
+			// after the interval: several requests, the first of them blocks in the log write
+			var wg sync.WaitGroup
+			nPar := 2 + s%3
+			for g := 0; g < nPar; g++ {
+				wg.Add(1)
+				go func() {
+					defer wg.Done()
+					il.Inc(rec.start.Add(time.Duration(intervalMS+5+g)*time.Millisecond), addrs[g%len(addrs)].ip)
+				}()
+				time.Sleep(30 * time.Millisecond)
+			}
+			// now let the log be read
+			done := make(chan struct{})
+			go func() {
+				f, err := os.OpenFile(fifo, os.O_RDONLY, 0)
+				if err == nil {
+					buf := make([]byte, 1<<16)
+					for {
+						if _, err := f.Read(buf); err != nil {
+							break
+						}
+					}
+					f.Close()
+				}
+				close(done)
+			}()
+			wg.Wait()
+			// requests after the roll-over, same interval
+			for i := 0; i < maxReq+1; i++ {
+				il.Inc(rec.start.Add(time.Duration(intervalMS+100+i)*time.Millisecond), addrs[i%2].ip)
+			}
+			w.Emit(tr.E{"ev": "end"})
+			// unblock the drain goroutine if nothing was ever written
+			if f, err := os.OpenFile(fifo, os.O_WRONLY|syscall.O_NONBLOCK, 0); err == nil {
+				f.Close()
+			}
+			select {
+			case <-done:
+			case <-time.After(2 * time.Second):
+			}
+			_ = os.Remove(fifo)
+			distinct[fmt.Sprintf("slowlog%d-%d-%d", s, maxReq, nPar)] = true
 		}
 	}
 
